@@ -91,6 +91,16 @@ func mgExpr(e ast.Expr) string {
 		return "(ESel " + mgExpr(v.X) + " " + mgCoqString(v.Sel.Name) + ")"
 	case *ast.IndexExpr:
 		return "(EIndex " + mgExpr(v.X) + " " + mgExpr(v.Index) + ")"
+	case *ast.SliceExpr:
+		if !v.Slice3 {
+			opt := func(e ast.Expr) string {
+				if e == nil {
+					return "None"
+				}
+				return "(Some " + mgExpr(e) + ")"
+			}
+			return "(ESlice " + mgExpr(v.X) + " " + opt(v.Low) + " " + opt(v.High) + ")"
+		}
 	case *ast.BinaryExpr:
 		return "(EBin " + mgCoqString(v.Op.String()) + " " + mgExpr(v.X) + " " + mgExpr(v.Y) + ")"
 	case *ast.UnaryExpr:
